@@ -926,6 +926,93 @@ def run_sched(ctx, objdir, cases, name="xcases"):
     ctx.extra["disagreements_checked"] = ctx.extra.get("disagreements_checked", 0) + len(mis)
 
 
+# ------------------------------------------------------------------ folding under -F / -N / -D
+def gen_nest_case(rng):
+    """one or two tasks of deep call chains over few names (nested and recursive -F hits are frequent)"""
+    nfun = rng.choice([3, 4, 5])
+    names = list(NAMES[:nfun])
+    tasks = []
+    for ti in range(rng.choice([1, 1, 2])):
+        clk = [1000 + rng.randrange(0, 5)]
+
+        def tick():
+            clk[0] += rng.choice([1, 1, 2, 7])
+            return clk[0]
+        recs = []
+
+        def call(d, budget):
+            k = rng.randrange(nfun)
+            recs.append([tick(), E, d, k])
+            n = 0 if d >= 7 else rng.choice([0, 1, 1, 1, 2, 3])
+            for _ in range(n):
+                if budget[0] <= 0:
+                    break
+                budget[0] -= 1
+                call(d + 1, budget)
+            recs.append([tick(), X, d, k])
+        for _ in range(rng.choice([1, 2])):
+            call(0, [rng.choice([6, 10, 16])])
+        tasks.append({"tid": 700 + ti, "parent": None, "recs": recs})
+    return {"names": names, "forks": [], "tasks": tasks, "max_stack": 1024, "illformed": False, "sess2": None}
+
+
+def fold_hand_cases():
+    names = ["main", "outer", "mid", "inner", "leaf"]
+    chain = [[1000 + 10 * i, E, i, i] for i in range(5)] + [[1100 + 10 * i, X, 4 - i, 4 - i] for i in range(5)]
+    c1 = {"names": names, "forks": [], "tasks": [{"tid": 800, "parent": None, "recs": chain}], "max_stack": 1024, "illformed": False}
+    rec = [[1000 + 10 * i, E, i, 1 if i else 0] for i in range(6)] + [[1100 + 10 * i, X, 5 - i, 1 if i < 5 else 0] for i in range(6)]
+    c2 = {"names": ["main", "rec"], "forks": [], "tasks": [{"tid": 801, "parent": None, "recs": rec}], "max_stack": 1024, "illformed": False}
+    out = []
+    for d in (1, 2, 3):
+        out.append((c1, {"depth": d, "F": ["outer", "inner"], "N": [], "t": None}))
+        out.append((c1, {"depth": d, "F": ["outer", "mid", "leaf"], "N": [], "t": None}))
+        out.append((c2, {"depth": d, "F": ["rec"], "N": [], "t": None}))
+    out.append((c1, {"depth": 2, "F": ["outer", "inner"], "N": ["leaf"], "t": None}))
+    return out
+
+
+def run_fold_opts(ctx, objdir, pairs, name="fcases"):
+    """folding is presentation also under replay-time filters: for the same data and option set the calls of the default view
+    (a folded leaf = its entry and exit) are the calls of the --no-merge view: same order, task, indentation, name, duration"""
+    from props import c18 as _c18
+    items = []
+    for case, o in pairs:
+        d = os.path.join(ctx.scratch, "fdata")
+        write_dir(case, d)
+        outs = []
+        for fold in (False, True):
+            v = {"fold": fold, "sel": None, "fields": ["duration", "tid"], "column": None, "newline": False}
+            rc, out, err = datadir.uftrace(objdir, "replay", d, variant_args(v, case) + _c18.opts_args(o), timeout=30)
+            if rc != 0:
+                ctx.violation("uftrace replay failed with filter options (rc=%d): %s" % (rc, (out + err)[-300:]),
+                              {"fold_case": case, "opts": o}, True)
+                break
+            outs.append(parse_output(out, v, case)[0])
+        if len(outs) != 2:
+            continue
+        items.append((case, o, outs))
+        nhit = sum(1 for t in case["tasks"] for r in t["recs"] if r[1] == E and case["names"][r[3]] in o["F"])
+        ctx.case(key=("fold-opts", repr([t["recs"] for t in case["tasks"]]), repr(_c18.opts_args(o))),
+                 nontrivial=len(outs[0]) > 0,
+                 tags=["fold-vs-no-merge", "opts:" + "".join(a for a in _c18.opts_args(o) if a.startswith("-"))]
+                 + (["filter-hits>=2"] if nhit >= 2 else []) + (["-F x2"] if len(o["F"]) >= 2 else []),
+                 size=len(outs[0]))
+    if not items:
+        return
+    defs = "Definition runs : list (list line * list line) := [%s]." % ";\n".join(
+        "([%s], [%s])" % ("; ".join(coq_line(l) for l in outs[0]), "; ".join(coq_line(l) for l in outs[1])) for _, _, outs in items)
+    res = coq.run_cases(ctx, name, PRE, defs, [("bad", "bad_indices (fun x => same_events true true None (fst x) (snd x)) runs 0")])
+    if res is None:
+        return
+    from props import c18 as _c18b
+    for i in coq.parse_nat_list(res["bad"])[:3]:
+        case, o, outs = items[i]
+        ctx.violation("C06 violated: with `%s` the default (folded) view of `uftrace replay` does not show the calls of the "
+                      "--no-merge view (a call's line is missing / its indentation or duration differs): folding changed more "
+                      "than the presentation" % " ".join(_c18b.opts_args(o)),
+                      {"fold_case": case, "opts": o, "no_merge": outs[0], "default": outs[1]}, True)
+
+
 # ------------------------------------------------------------------ entry points
 def common_meta(ctx):
     ctx.rule = ("a case = one generated task set (1-6 tasks: threads, forked children starting with k EXITs or inside fork(), "
@@ -1086,11 +1173,42 @@ def known_witness(ctx, objdir):
                        "full_view_child_lines": full, "tid_child_only_lines": alone})
 
 
+KF2_KEY = "fold-hidden-fork-depth"
+KF2_TEXT = ("default (folded) view with -D: when the ENTRY of fork() is hidden by the depth limit and is the first record after its "
+            "caller's ENTRY, the caller's look-ahead (fstack_skip) consumes it before the caller's display depth is updated, "
+            "fork_display_depth is one too small and the forked child's lines are printed one level shallower than with --no-merge "
+            "(main{a{fork}} -D 2: `} /* fork */`, b(), `} /* a */` of the child at indentation 1,1,0 instead of 2,2,1)")
+
+
+def known_witness_fold_fork(ctx, objdir):
+    from props import c18 as _c18
+    case = kf_case()
+    o = {"depth": 2, "F": [], "N": [], "t": None}
+    d = os.path.join(ctx.scratch, "kf2data")
+    write_dir(case, d)
+    outs = []
+    for fold in (False, True):
+        v = {"fold": fold, "sel": None, "fields": ["duration", "tid"], "column": None, "newline": False}
+        rc, out, err = datadir.uftrace(objdir, "replay", d, variant_args(v, case) + _c18.opts_args(o), timeout=30)
+        if rc != 0:
+            return
+        outs.append([(l[2], l[3]) for l in parse_output(out, v, case)[0] if l[1] == 1 and l[0] in "OLC"])
+    nm = [x for x in outs[0]]
+    df = []
+    for ind, name in outs[1]:
+        df.append((ind, name))
+    # a folded leaf is one line in the default view: compare the indentation of the first line of every call
+    still = [i for i, _ in nm][:1] != [i for i, _ in df][:1]
+    ctx.case(key=("known-finding", KF2_KEY), tags=["known-finding:" + KF2_KEY], sample={"no_merge": nm, "default": df})
+    ctx.known_finding(KF2_KEY, KF2_TEXT, still, {"known_finding": KF2_KEY, "no_merge": nm, "default": df})
+
+
 def run(ctx):
     common_meta(ctx)
     objdir = setup(ctx)
     rng = ctx.rng
     known_witness(ctx, objdir)
+    known_witness_fold_fork(ctx, objdir)
     cases = hand_cases()
     n = ctx.n(110, 1500)
     for k in range(n):
@@ -1115,6 +1233,25 @@ def run(ctx):
         part = items[s:s + chunk]
         res = evaluate(ctx, part, "cases%d" % (s // chunk))
         verdict(ctx, part, res)
+    # folding under replay-time filter options: default view vs --no-merge view of the real code
+    from props import c18 as _c18
+    pairs = fold_hand_cases()
+    for k in range(ctx.n(60, 600)):
+        case = gen_nest_case(rng) if k % 2 else None
+        while case is None:
+            c = gen_case1(rng, "small" if k % 3 else "medium")
+            if (not c["illformed"] and not c.get("sess2") and not any(r[1] == LOSTREC for t in c["tasks"] for r in t["recs"])
+                    and all(t["parent"] is None for t in c["tasks"]) and any(t["recs"] for t in c["tasks"])):
+                case = c       # (forked children under -D differ between the two views: not covered, see manifest)
+        used = sorted({case["names"][r[3]] for t in case["tasks"] for r in t["recs"]}) or case["names"][:1]
+        o = {"depth": rng.choice([None, 1, 1, 2, 2, 3, 4]), "F": rng.sample(used, min(len(used), rng.choice([0, 1, 2, 2, 3]))),
+             "N": [], "t": None}
+        rest = [n for n in used if n not in o["F"]]
+        if rest and rng.random() < 0.3:
+            o["N"] = [rng.choice(rest)]
+        pairs.append((case, o))
+    for s in range(0, len(pairs), 100):
+        run_fold_opts(ctx, objdir, pairs[s:s + 100], "fcases%d" % (s // 100))
     # the perf source: context-switch events tied with / next to the records of their task
     xcases = sched_hand_cases() + [gen_sched_case(rng, k) for k in range(ctx.n(30, 400))]
     for s in range(0, len(xcases), 80):
@@ -1126,6 +1263,12 @@ def replay(ctx, obj):
     objdir = setup(ctx)
     if obj.get("known_finding") == KF_KEY:
         known_witness(ctx, objdir)
+        return
+    if obj.get("known_finding") == KF2_KEY:
+        known_witness_fold_fork(ctx, objdir)
+        return
+    if obj.get("fold_case"):
+        run_fold_opts(ctx, objdir, [(obj["fold_case"], obj["opts"])], "replay_f")
         return
     if obj.get("sched_case"):
         run_sched(ctx, objdir, [obj["sched_case"]], "replay_x")
